@@ -1,3 +1,6 @@
 -- Root of the `OQuPyVerif` library: every module that `lake build` (setup) must check.
 import OQuPyVerif.Props.C13
+import OQuPyVerif.Props.C02
+import OQuPyVerif.Props.C04
 import OQuPyVerif.Model.Proto
+import OQuPyVerif.Model.ProtoQI
